@@ -130,6 +130,10 @@ def delayed_load(all_props, loader, element=True, isotope=False, ion=False):
         def setfn(el, value):
             #print "set", el, propname, value
             clearprops()
+            # Load the shared table before storing the value so that an early
+            # assignment cannot leave the rest of the table unloaded.  A loader
+            # that is already running returns at once.
+            loader()
             setattr(el, propname, value)
         return setfn
 
